@@ -92,14 +92,14 @@ func allBufStates() []bufState {
 
 func bufGhosts() map[string]engine.AbsVal {
 	return map[string]engine.AbsVal{
-		"#pending": str("none"), "#len0": str("T"), "#mk": str(""), "#vu": str("ok"), "#dirty": str("F"), "#ctx": str("none"),
+		"#pending": str("none"), "#len0": str("T"), "#mk": str(""), "#vu": str("ok"), "#dirty": str("F"), "#ctx": str("none"), "#dropped": str("F"),
 	}
 }
 
 func bufFields(s bufState) map[string]engine.AbsVal {
 	return map[string]engine.AbsVal{
 		"mode": num(s.Mode), "markerOpen": boolv(s.Open),
-		"#pending": str(s.Pending), "#len0": str(s.Len0), "#mk": str(""), "#vu": str("ok"), "#dirty": str("F"), "#ctx": str("none"),
+		"#pending": str(s.Pending), "#len0": str(s.Len0), "#mk": str(""), "#vu": str("ok"), "#dirty": str("F"), "#ctx": str("none"), "#dropped": str("F"),
 	}
 }
 
@@ -307,6 +307,7 @@ func (h *bufHooks) onStore(c *engine.Ctx, instr ssa.Instruction, addr engine.Ptr
 		h.set(c, addr.Obj, prefix, "#dirty", "T")
 		switch v := val.(type) {
 		case engine.NilV:
+			h.set(c, addr.Obj, prefix, "#dropped", "T")
 			h.set(c, addr.Obj, prefix, "#len0", "T")
 			h.set(c, addr.Obj, prefix, "#pending", "none")
 			h.set(c, addr.Obj, prefix, "#vu", "stale")
@@ -326,6 +327,9 @@ func (h *bufHooks) onStore(c *engine.Ctx, instr ssa.Instruction, addr engine.Ptr
 						// truncation: a trailing marker is elided
 						h.verdict(c, instr, "I2-elide", mk == "" && s.Pending == "none", "trailing marker elided; requires no pending unescaped bytes", cfg)
 						h.set(c, addr.Obj, prefix, "#mk", "elide")
+						// the buffer got shorter: validUntil points past the end
+						// until it is re-established
+						h.set(c, addr.Obj, prefix, "#vu", "stale")
 						return
 					}
 				}
